@@ -16,6 +16,8 @@ CHECKS = {
          "Lean 4 proof (induction over loop iterations, Mathlib linarith over Q) + bit-exact Float grid correspondence + step-equation oracle", "§3 C12"),
  "C11": ("Lean theorems about the DaeIc controller for arbitrary residual / linear-solve oracles: only algebraic positions are ever written (states bit-identical), and every returned point has algebraic residual <= 1e-6 (exits A, C) or <= 1e-5*rtol (exit B), anything else raises; tied to the real DaeIc by bit-exact Float runs on a quadratic-constraint family where Lean evaluates the oracles itself; the four DAE solvers' first rows are checked by an oracle on index-1 families with interleaved variable and equation order",
          "Lean 4 proof (induction over Newton iterations and probes) + bit-exact controller correspondence + first-row oracle", "§3 C11"),
+ "C14": ("Lean frame theorem (a call that leaves the shared state unchanged gives fresh results in every history) instantiated on effect summaries that a translator re-derives from the solver sources on every run (attribute stores on Opt, stores through parameter aliases, module-level state, memoisation), decided empty by the kernel; backed by random call histories on shared Opt/model/y0 objects compared bit-for-bit with fresh-object calls",
+         "Lean 4 proof (induction over call histories) over translator-generated effect summaries + history differential runs", "§3 C14"),
 }
 REASONS = {}
 props = [json.loads(l)["id"] for l in open(os.path.join(V, "properties.jsonl"))]
